@@ -327,7 +327,7 @@ pub fn enum_discriminants<'a>(
         } else {
             next_discriminant.clone()
         };
-        next_discriminant = parse_quote! { #discriminant + 1 };
+        next_discriminant = parse_quote! { (#discriminant) + 1 };
         discriminant
     })
 }
